@@ -84,6 +84,7 @@ ScanParseFrom(f, i) ==
   IF i > Len(f) THEN <<>>
   ELSE IF f[i] # 37 THEN <<[k |-> "lit", c |-> f[i]]>> \o ScanParseFrom(f, i + 1)
   ELSE LET dr == ScanDirective(f, i) IN <<dr>> \o ScanParseFrom(f, dr.next)
+ScanHasSuppressedN(f) == LET P == ScanParseFrom(f, 1) IN \E i \in 1..Len(P) : P[i].k = "dir" /\ P[i].cv = 110 /\ P[i].sup
 ScanHasNConv(f) == LET P == ScanParseFrom(f, 1) IN \E i \in 1..Len(P) : P[i].k = "dir" /\ P[i].cv = 110 /\ ~P[i].sup
 
 (* ------------------------------------------------------------------ limbs *)
@@ -176,7 +177,7 @@ RECURSIVE WcsBytes(_, _, _)
 (* multibyte form of a wide string, whole characters only, at most lim bytes (lim < 0: no limit);
    <<-1>> marks an encoding error *)
 WcsBytes(ws, loc, lim) ==
-  IF ws = <<>> THEN <<>>
+  IF ws = <<>> \/ lim = 0 THEN <<>>
   ELSE LET b == WcBytes(ws[1], loc) IN
        IF ws[1] = 0 THEN <<>>
        ELSE IF b = <<>> THEN <<-1>>
